@@ -2191,7 +2191,9 @@ func (e *CoreExtension) functionMerge(args ...interface{}) (interface{}, error) 
 		} else {
 			// Use reflection for other map types
 			baseRv := reflect.ValueOf(base)
-			for _, key := range baseRv.MapKeys() {
+			// Walk the keys in a fixed order: two keys may stringify alike (1 and "1"),
+			// and which of them wins must not depend on Go's map iteration order
+			for _, key := range sortedMapKeys(baseRv) {
 				keyStr := toString(key.Interface())
 				result[keyStr] = baseRv.MapIndex(key).Interface()
 			}
@@ -2208,7 +2210,7 @@ func (e *CoreExtension) functionMerge(args ...interface{}) (interface{}, error) 
 				// Use reflection for other map types
 				argRv := reflect.ValueOf(arg)
 				if argRv.Kind() == reflect.Map {
-					for _, key := range argRv.MapKeys() {
+					for _, key := range sortedMapKeys(argRv) {
 						keyStr := toString(key.Interface())
 						result[keyStr] = argRv.MapIndex(key).Interface()
 					}
